@@ -263,6 +263,23 @@ def rule_gates(report, prog, res):
                      'llc.%s does not clamp the connection send MIU to the link MIU' % q)
 
 
+
+def rule_agf_iteration(report, prog, res):
+    """R7: a received aggregate is walked more than once (dispatch() logs its PDUs, then dispatches them): every walk must see all
+    PDUs, so AggregatedFrame.__iter__ hands out a fresh iterator -- returning the frame itself makes the second walk empty and the
+    aggregated PDUs are silently dropped."""
+    agf = prog.cls('nfc.llcp.pdu.AggregatedFrame')
+    it = agf.methods.get('__iter__')
+    rets = [norm(r.value) for r in walk_no_nested(it.node) if isinstance(r, ast.Return) and r.value is not None] if it is not None else []
+    fresh = bool(rets) and all(r != 'self' for r in rets) and all(('(' in r) for r in rets)
+    report.check(fresh, 'C10-R7', key(agf.qname, '__iter__ returns a new iterator on every call'), it.loc() if it is not None else agf.qname,
+                 'AggregatedFrame.__iter__ returns %s: the frame can be walked only once' % rets)
+    d = prog.func('nfc.llcp.llc.LogicalLinkController.dispatch')
+    loops = [l for l in ast.walk(d.node) if isinstance(l, ast.For) and norm(l.iter) == 'rcvd_pdu']
+    disp = [l for l in loops if any(isinstance(c, ast.Call) and norm(c.func) == 'self.dispatch' for c in ast.walk(l))]
+    report.check(len(disp) == 1, 'C10-R7', key(d.qname, 'every PDU of a received aggregate is dispatched'), d.loc(),
+                 'dispatch() no longer walks the received aggregate to dispatch its PDUs')
+
 def run(report, prog, tier):
     res = Resolver(prog)
     rule_sd_budget(report, prog, res)
@@ -270,6 +287,7 @@ def run(report, prog, tier):
     rule_collect(report, prog, res)
     rule_dequeue(report, prog, res)
     rule_gates(report, prog, res)
+    rule_agf_iteration(report, prog, res)
     from . import c05
     c05.rule_miu_writes(report, prog, rule='C10-R6')
     report.trusted += ['struct.calcsize semantics', 'len(x.encode()) == len(x) induction for aggregated PDUs']
